@@ -33,6 +33,13 @@ type Src struct {
 	NChunks  int    `json:"nchunks,omitempty"` // chunks per block
 	NBlocks  int    `json:"nblocks,omitempty"`
 	Big      bool   `json:"big,omitempty"` // one LZMA chunk with more than 1 MiB of output
+	// extra chunks appended to the (first) chunk list whose header size fields
+	// take exactly these values: compressed size of an LZMA chunk (CFit, fitted
+	// with literals), uncompressed size of an LZMA chunk (UFit, long matches),
+	// size of an uncompressed chunk (RawFit)
+	CFit   int `json:"cfit,omitempty"`
+	UFit   int `json:"ufit,omitempty"`
+	RawFit int `json:"rawfit,omitempty"`
 	Check    byte   `json:"check,omitempty"`
 	DictCode byte   `json:"dictcode,omitempty"`
 	Sizes    int    `json:"sizes,omitempty"`    // bit0 compressed size field, bit1 uncompressed
@@ -350,6 +357,98 @@ func ChunksFrom(p *PRNG, sim *ref.LZMA2Sim, nchunks, nops int, feats map[string]
 	return specs
 }
 
+// fitCompressed builds an LZMA chunk (dictionary reset, new properties) of
+// literals whose compressed size is exactly target bytes.
+func fitCompressed(p *PRNG, target int) (ref.ChunkSpec, error) {
+	props := ref.Props{LC: 3, LP: 0, PB: 2}
+	lits := make([]ref.Op, target+64)
+	for i := range lits {
+		lits[i] = ref.Op{Kind: ref.OpLit, Byte: byte(p.Next() >> 11)}
+	}
+	size := func(n int) int {
+		stream, _, err := ref.EncodeLZMA2([]ref.ChunkSpec{{Kind: ref.CkLRND, Props: props, Ops: lits[:n]}}, 4096)
+		if err != nil {
+			return 1 << 30
+		}
+		return len(stream) - 6
+	}
+	lo, hi := 1, len(lits)
+	for lo < hi {
+		mid := (lo + hi) / 2
+		if size(mid) >= target {
+			hi = mid
+		} else {
+			lo = mid + 1
+		}
+	}
+	for try := 0; try < 400; try++ {
+		for _, n := range []int{lo, lo - 1, lo + 1} {
+			if n >= 1 && n <= len(lits) && size(n) == target {
+				return ref.ChunkSpec{Kind: ref.CkLRND, Props: props, Ops: append([]ref.Op{}, lits[:n]...)}, nil
+			}
+		}
+		lits[lo-1].Byte = byte(p.Next() >> 11)
+		if lo >= 2 {
+			lits[lo-2].Byte = byte(p.Next() >> 23)
+		}
+	}
+	return ref.ChunkSpec{}, fmt.Errorf("gen: cannot fit a chunk to %d compressed bytes", target)
+}
+
+// fitSpecs returns the extra chunks requested by CFit / UFit / RawFit and
+// applies them to the simulator.
+func (s Src) fitSpecs(p *PRNG, sim *ref.LZMA2Sim, feats map[string]bool) ([]ref.ChunkSpec, error) {
+	var specs []ref.ChunkSpec
+	if s.RawFit > 0 {
+		cs := ref.ChunkSpec{Kind: ref.CkRawD, Raw: make([]byte, s.RawFit)}
+		p.Fill(cs.Raw)
+		sim.DictReset()
+		sim.Raw(cs.Raw)
+		specs = append(specs, cs)
+		feats[fmt.Sprintf("raw_size=%d", s.RawFit)] = true
+	}
+	if s.UFit > 0 {
+		cs := ref.ChunkSpec{Kind: ref.CkLRND, Props: ref.Props{LC: 3, LP: 0, PB: 2}}
+		sim.DictReset()
+		sim.StateReset()
+		add := func(o ref.Op) {
+			if sim.Apply(o) {
+				cs.Ops = append(cs.Ops, o)
+			}
+		}
+		add(ref.Op{Kind: ref.OpLit, Byte: byte(p.Next())})
+		for made := 1; made < s.UFit; {
+			l := s.UFit - made
+			if l > 273 {
+				l = 273
+			}
+			if l < 2 {
+				add(ref.Op{Kind: ref.OpLit, Byte: 'u'})
+				made++
+				continue
+			}
+			add(ref.Op{Kind: ref.OpMatch, Dist: 0, Len: l})
+			made += l
+		}
+		specs = append(specs, cs)
+		feats[fmt.Sprintf("lzma_usize=%d", s.UFit)] = true
+	}
+	if s.CFit > 0 {
+		cs, err := fitCompressed(p, s.CFit)
+		if err != nil {
+			return nil, err
+		}
+		sim.DictReset()
+		sim.StateReset()
+		for _, o := range cs.Ops {
+			sim.Apply(o)
+		}
+		specs = append(specs, cs)
+		feats[fmt.Sprintf("lzma_csize=%d", s.CFit)] = true
+	}
+	return specs, nil
+}
+
 func (s Src) buildRef() (*Built, error) {
 	p := NewTapePRNG(s.Seed, s.Tape)
 	feats := map[string]bool{}
@@ -374,7 +473,11 @@ func (s Src) buildRef() (*Built, error) {
 		ds, _ := ref.DictSizeForCode(s.DictCode)
 		sim := ref.NewSim(ds)
 		specs := ChunksFrom(p, sim, s.NChunks, s.NOps, feats, s.Big)
-		specs = append(specs, ref.ChunkSpec{Kind: ref.CkEnd})
+		extra, err := s.fitSpecs(p, sim, feats)
+		if err != nil {
+			return nil, err
+		}
+		specs = append(append(specs, extra...), ref.ChunkSpec{Kind: ref.CkEnd})
 		stream, plain, err := ref.EncodeLZMA2(specs, ds)
 		if err != nil {
 			return nil, err
@@ -391,6 +494,13 @@ func (s Src) buildRef() (*Built, error) {
 				feats["empty_block"] = true
 			}
 			specs := ChunksFrom(p, sim, nch, s.NOps, feats, s.Big)
+			if i == 0 {
+				extra, err := s.fitSpecs(p, sim, feats)
+				if err != nil {
+					return nil, err
+				}
+				specs = append(specs, extra...)
+			}
 			specs = append(specs, ref.ChunkSpec{Kind: ref.CkEnd})
 			sp.Blocks = append(sp.Blocks, ref.BlockSpec{Chunks: specs, DictCode: s.DictCode, WithCSize: s.Sizes&1 != 0, WithUSize: s.Sizes&2 != 0, ExtraPad: s.ExtraPad})
 		}
